@@ -157,7 +157,7 @@ Definition fix2_from_rows_nested : bool := true.    (* a nested-table field conv
 Definition fix3_add_empty : bool := true.           (* add_fields accepts an empty, explicitly typed column *)
 Definition fix4_sort_strings : bool := true.        (* sort_by on StringArray / EncodedRaggedArray columns, stable *)
 Definition fix5_empty_dtype : bool := true.         (* an empty int / bool column keeps its declared dtype *)
-Definition fix7_list_empty_dtype : bool := false.    (* a List[int] column without any element keeps int64 (notes/C19.fix-7.diff) *)
+Definition fix7_list_empty_dtype : bool := true.     (* a List[int] column without any element keeps int64 (notes/C19.fix-7.diff) *)
 Definition fix6_flat_cells : bool := true.          (* a flat-encoded (strand) field rejects entries that are not one symbol *)
 Inductive fk := FB (k : kind) | FN (ks : list (list Z * kind)).
 Definition schema := list (list Z * fk).
